@@ -1,9 +1,47 @@
-//! Host functions registered in every session, and the object-level API operations (C20).
+//! Host functions registered in every session (C02, C20), and the object-level API operations (C20).
 
 use crate::Session;
-use tulisp::TulispContext;
+use tulisp::{list, tulisp_fn, Error, TulispContext, TulispObject};
 
-pub fn register_host_fns(_ctx: &mut TulispContext) {}
+pub fn register_host_fns(ctx: &mut TulispContext) {
+    #[tulisp_fn(add_func = "ctx", name = "h-two")]
+    fn h_two(a: TulispObject, b: TulispObject) -> Result<TulispObject, Error> {
+        list!(,a ,b)
+    }
+
+    #[tulisp_fn(add_func = "ctx", name = "h-opt")]
+    fn h_opt(a: TulispObject, b: Option<TulispObject>) -> Result<TulispObject, Error> {
+        match b {
+            Some(b) => list!(,a ,b),
+            None => list!(,a ,TulispObject::from("none")),
+        }
+    }
+
+    #[tulisp_fn(add_func = "ctx", name = "h-rest")]
+    fn h_rest(a: TulispObject, rest: TulispObject) -> Result<TulispObject, Error> {
+        Ok(TulispObject::cons(a, rest))
+    }
+
+    #[tulisp_fn(add_func = "ctx", name = "h-int")]
+    fn h_int(a: i64, b: Option<i64>) -> i64 {
+        a.wrapping_mul(10).wrapping_add(b.unwrap_or(7))
+    }
+
+    #[tulisp_fn(add_func = "ctx", name = "h-float")]
+    fn h_float(a: f64) -> f64 {
+        a * 2.0
+    }
+
+    #[tulisp_fn(add_func = "ctx", name = "h-str")]
+    fn h_str(a: String, b: Option<String>) -> String {
+        format!("{}|{}", a, b.unwrap_or_else(|| "-".to_string()))
+    }
+
+    #[tulisp_fn(add_func = "ctx", name = "h-bool")]
+    fn h_bool(a: TulispObject) -> bool {
+        a.null()
+    }
+}
 
 pub fn handle(_s: &mut Session, _rest: &str) -> String {
     "BADCMD".to_string()
